@@ -1,5 +1,6 @@
 import Driver.Common
 import AslModel.Codec
+import AslModel.CodecExt
 import AslModel.Sha1
 /-! Model driver for C15 (codec + SHA-1). -/
 open Driver AslModel
@@ -58,6 +59,8 @@ def step (_ : Unit) (ts : List String) : Unit × String :=
       | _, _ => "bad-op"
     | ["b64rt", h] => match unhex h with
       | some d => lenHex (Codec.decodeBase64 (Codec.encodeBase64 d)) | none => "bad-op"
+    | ["b64fold", n, h] => match n.toNat?, unhex h with
+      | some n, some d => lenHex (Codec.decodeBase64 (Codec.foldLines n (Codec.encodeBase64 d))) | _, _ => "bad-op"
     | ["hexenc", h] => match unhex h with
       | some d => hex (Codec.encodeHex d) | none => "bad-op"
     | ["hexdec", h] => match unhex h with
